@@ -138,7 +138,32 @@ func RunC01(k *fw.Case) {
 		for _, a := range ru.pre {
 			b.WriteString("  " + p.Stmt(a, 1) + "\n")
 		}
-		b.WriteString("  return " + p.Expr(ru.expr) + "\nend\n")
+		// the same expression in different syntactic positions: return, assignment right-hand
+		// side, call argument, if condition
+		et := p.Expr(ru.expr)
+		_, isBool := ru.want.(bool)
+		switch c := r.Intn(8); {
+		case c == 0:
+			b.WriteString("  carried = " + et + "\n  return carried\nend\n")
+		case c == 1:
+			b.WriteString("  return pass(" + et + ")\nend\n")
+		case c == 2 && isBool && !ru.fault:
+			b.WriteString("  if " + et + " {\n    return 1\n  } else {\n    return 0\n  }\nend\n")
+			if ru.want.(bool) {
+				ru.want = int64(1)
+			} else {
+				ru.want = int64(0)
+			}
+		case c == 3 && isBool && !ru.fault:
+			b.WriteString("  cnt = 0\n  for go1 = true; go1 && (" + et + "); go1 = false {\n    cnt += 1\n  }\n  return cnt\nend\n")
+			if ru.want.(bool) {
+				ru.want = int64(1)
+			} else {
+				ru.want = int64(0)
+			}
+		default:
+			b.WriteString("  return " + et + "\nend\n")
+		}
 		ru.text = b.String()
 		text.WriteString(ru.text)
 		rules = append(rules, ru)
